@@ -3,6 +3,18 @@ from .. import astu, ir
 from ..project import AnalysisBroken
 
 
+def _fixed_extent(e):
+    """N when e is a data member / variable of type T[N]"""
+    import re
+    if not isinstance(e, dict):
+        return None
+    e = astu.strip_casts(e)
+    m = re.search(r'\[(\d+)\]\s*$', str(e.get('ty', '')))
+    if e.get('k') in ('Member', 'Ref') and m:
+        return int(m.group(1))
+    return None
+
+
 def inserted_operands(fn, stream_name):
     """operands inserted into `stream_name` with operator<<, in source order: [(text, node, guarded_by_flag)]"""
     out = []
@@ -21,6 +33,18 @@ def inserted_operands(fn, stream_name):
             visit(stmt['t'], astu.src(stmt['c']))
             if stmt.get('e'):
                 visit(stmt['e'], 'else ' + astu.src(stmt['c']))
+        elif k == 'ForRange' and _fixed_extent(stmt.get('range')) is not None and isinstance(stmt.get('var'), dict):
+            # range-for over a fixed-extent array member: one insertion sequence per element, in index order
+            n = _fixed_extent(stmt['range'])
+            before = len(out)
+            visit(stmt['body'], guard)
+            body_ops = out[before:]
+            del out[before:]
+            vname = stmt['var']['name']
+            base = astu.src(stmt['range'])
+            for i in range(n):
+                for text, node, g in body_ops:
+                    out.append(('%s[%d]' % (base, i) if text == vname else text, node, g))
         elif k in ('For', 'ForRange', 'While', 'Do'):
             visit(stmt['body'], (guard or '') + '@loop')
         elif k == 'Expr':
